@@ -213,11 +213,11 @@ def standard_parsing_functions(Block: Any, Tx: Any) -> list[Any]:
         tx.stream(f)
 
     def parse_int_6(f: IO[bytes]) -> int:
-        b = f.read(6) + b"\0\0"
-        return struct.unpack(b, "<L")[0]  # type: ignore[arg-type,no-any-return]
+        low, high = struct.unpack("<LH", f.read(6))
+        return low + (high << 32)  # type: ignore[no-any-return]
 
     def stream_int_6(f: IO[bytes], v: int) -> None:
-        f.write(struct.pack(v, "<L")[:6])  # type: ignore[arg-type]
+        f.write(struct.pack("<LH", v & 0xFFFFFFFF, v >> 32))
 
     more_parsing = [
         ("A", (PeerAddress.parse, lambda f, peer_addr: peer_addr.stream(f))),
